@@ -1,7 +1,7 @@
 (* GENERATED on every run by harness/props/C03.py:translate from mdtraj/core/trajectory.py -- do not edit.
    Field data-flow of Trajectory.slice / join / stack / atom_slice and the cache effects of the in-place methods
    (term language and its semantics: MD.Traj.Flow; soundness of the checkers: MD.Traj.FlowProofs). *)
-Require Import MD.Traj.Model MD.Traj.Flow.
+Require Import MD.Traj.Model MD.Traj.Flow MD.Traj.Extra.
 
 Definition slice_flow : flow := mkFlow (FCopyIf (FIdx (FField OSelf SXyz))) (FCopyIf (FIdx (FField OSelf STime))) (FCopyIf (FIdx (FField OSelf SLen))) (FCopyIf (FIdx (FField OSelf SAng))) (FCopyIf (FField OSelf STop)) (FCopyIf (FArr1 (FIdx (FField OSelf STraces)))).
 Definition join_flow : flow := mkFlow (FConcat SXyz) (FConcat STime) (FConcat SLen) (FConcat SAng) (FDeep (FField OSelf STop)) FNone.
@@ -23,4 +23,9 @@ Proof. vm_compute. reflexivity. Qed.
 Lemma atom_slice_flow_checks : check_atom_slice atom_slice_flow = true.
 Proof. vm_compute. reflexivity. Qed.
 Lemma inplace_effects_check : check_effects inplace_effects = true.
+Proof. vm_compute. reflexivity. Qed.
+
+(* second layer (MD.Traj.Extra): restrict_atoms / make_molecules_whole / image_molecules / smooth as read *)
+Definition layer2_as_read : layer2_reading := mkL2 true true true true true.
+Lemma layer2_checks : check_layer2 layer2_as_read = true.
 Proof. vm_compute. reflexivity. Qed.
